@@ -150,7 +150,7 @@ def gen(tier, rng):
             for wi, wrap in enumerate(wraps):
                 if tier == "quick" and (level + wi + n // 65535) % 2: continue
                 bound = n + 5 * max(1, (n + 65534) // 65535) + over[wrap]
-                for slack in (0, 2, 9):
+                for slack in (-4, -1, 0, 2, 9):      # (below the bound the call may refuse; what it reports as success must still be complete)
                     add(api="deflate_stateless", inp=rnd, level=level, wrap=wrap, lbuf=3, calls=[[n, bound + slack, 0, 1]], meta={"cls": "whole-stored-sub-blocks-at-the-bound", "cpu": CPUS[(level + wi) % len(CPUS)]})
     # large inputs: stored-block splitting at 65535, 16-bit hash position wrap, internal buffer wrap
     big = [("random", 70000, 0), ("periodic", 200000, 2), ("text", 66000, 1), ("records", 36000 if tier == "quick" else 140000, 3)]
